@@ -242,13 +242,13 @@ def build_cgd():
     def inv(wp):
         e = wp.env
         M = step_smt.param_consts(wp, 'lsearchk::max_iterations')[0].t
-        m, i = e['params.m_max_iterations'].t, e['i'].t
+        m, i = e['params.m_max_iterations'].t, e[wp.loop_counter or 'i'].t
         return [('loop counter in range', f'(and (<= 0 {i}) (<= {i} {M}))'),
                 ('the remaining budget is in [0, max_iterations]', f'(and (<= 0 {m}) (<= {m} {M}))'),
                 ('the tentative state is the evaluation at interval.step_size', f'(= {e["state.t"].t} {e["interval.step_size"].t})'),
                 ('evaluations so far <= budget spent + 1 + 6 per iteration', f'(and (<= 0 {e["evals"].t}) (<= (+ {e["evals"].t} {m}) (+ {M} 1 (* 6 {i}))))')]
     inv.havoc = tuple(step_smt.STATE_KEYS) + IV_KEYS + ('params.m_max_iterations',) + CGD_GHOST
-    inv.decreases = lambda wp, env: f'(- {step_smt.param_consts(wp, "lsearchk::max_iterations")[0].t} {env["i"].t})'
+    inv.decreases = lambda wp, env: f'(- {step_smt.param_consts(wp, "lsearchk::max_iterations")[0].t} {env[wp.loop_counter or "i"].t})'
     return mk('advertised/cgdescent_do_get', CGD, CGD_FLT, 'do_get', setup, {1: inv},
               'CG_DESCENT do_get composed from the contracts of its helpers: state at the returned step, budget, advertised criterion', post=advertised_cgd,
               calls=[(r'^operator\(\)\|bool \(const double\) const\|\(lambda', h_muc), (r'^secant\|', lambda wp, n, a, c: wp.fresh('Real', 'secant', 'double'))],
